@@ -1,4 +1,5 @@
 pub mod arena;
+pub mod crash;
 pub mod pool;
 pub mod proccap;
 pub mod procspec;
@@ -41,6 +42,7 @@ pub fn dispatch(ctx: &mut Ctx) {
         "replay" => replay(ctx),
         "sem" => sem::run(ctx),
         "gen" => sem::dump(ctx),
+        "crash" => crash::run(ctx),
         "reclaim" => reclaim::run(ctx),
         "prune" => prune::run(ctx),
         "strings" => strings::run(ctx),
